@@ -221,3 +221,16 @@ pub fn operands(n: usize, seed: u64, thorough: bool) -> Vec<Limbs> {
 pub fn zero_big() -> BigUint {
     BigUint::zero()
 }
+
+/// Deterministic stride-thinning of a generator set to at most `max` members (first and last kept).
+pub fn thin(v: Vec<Limbs>, max: usize) -> Vec<Limbs> {
+    if v.len() <= max || max < 2 {
+        return v;
+    }
+    let n = v.len();
+    let mut out = Vec::with_capacity(max);
+    for i in 0..max {
+        out.push(v[i * (n - 1) / (max - 1)].clone());
+    }
+    dedup(out)
+}
